@@ -21,7 +21,7 @@ MANIFEST = {
     'note': 'Speeds taken non-negative for the order proofs (is_sign_positive := true); the sign convention of min_speed is covered by C02-1.',
 }
 EXPLANATION = 'Per-site lower-bound obligations on insert_speed and pre-value provenance of the restore decision.'
-RULES = ['C13-1.sites', 'C13-2.restore', 'C13-3.merge', 'C13-4.empty', 'C13-5.search', 'C13-6.add_speeds', 'C13-7.seed']
+RULES = ['C13-1.sites', 'C13-2.restore', 'C13-3.merge', 'C13-4.empty', 'C13-5.search', 'C13-6.add_speeds', 'C13-7.seed', 'C13-8.canonical']
 ASSUMPTIONS = ['speeds are non-negative in the order proofs', 'idx_start / idx_end are the positions their search loops are meant to find (not decided)']
 
 
@@ -31,3 +31,4 @@ def run(ctx):
     SP.empty_restriction_rule(ctx)
     SP.add_speeds(ctx, 'C13', 'ge')
     SP.seed(ctx, 'C13')
+    SP.canonical(ctx)
